@@ -34,6 +34,9 @@ pub enum Item {
     KeyEnable(bool),
     /// PUSHF ; items ; POPF
     FlagsSaved(Vec<Item>),
+    /// STOP in the middle of the main program (a breakpoint): the run holds the halt for a few edges and
+    /// then presses the continue key; a key press before or during the halt is served right after it
+    Breakpoint,
 }
 
 #[derive(Clone, Debug, Serialize, Deserialize)]
@@ -75,6 +78,7 @@ fn item() -> impl Strategy<Value = Item> {
         2 => (1u8..5, body(4)).prop_map(|(n, b)| Item::Loop(n, b)),
         2 => (0u8..2).prop_map(Item::Call),
         2 => any::<bool>().prop_map(Item::KeyEnable),
+        1 => Just(Item::Breakpoint),
     ];
     leaf.prop_recursive(3, 16, 4, |inner| {
         prop_oneof![
@@ -104,6 +108,12 @@ fn set_enable() -> Tm {
 
 /// Lay the program out: 0: JR MAIN; 2: JMP ISR; 5: MAIN ... STOP; subs; ISR.  None if it does not fit below the data area.
 pub fn layout(p: &Prog) -> Option<Vec<u8>> {
+    layout_with_end(p).map(|(c, _)| c)
+}
+
+/// image and the value of the PC right after the *final* STOP was fetched (every other regular stop
+/// is a breakpoint)
+pub fn layout_with_end(p: &Prog) -> Option<(Vec<u8>, u8)> {
     let mut code: Vec<u8> = vec![0x20, 0x03, 0xFB, 0x00, 0x13];
     let mut call_sites: Vec<(usize, u8)> = vec![];
     let emit = |code: &mut Vec<u8>, ts: &[Tm]| {
@@ -164,11 +174,13 @@ pub fn layout(p: &Prog) -> Option<Vec<u8>> {
                     emit_items(code, call_sites, b);
                     emit(code, &[Tm::PopF]);
                 }
+                Item::Breakpoint => code.push(0x01),
             }
         }
     }
     emit_items(&mut code, &mut call_sites, &p.items);
     code.push(0x01); // STOP
+    let final_pc = code.len() as u8;
     let mut sub_addr = [0u8; 2];
     for k in 0..2 {
         sub_addr[k] = code.len() as u8;
@@ -191,7 +203,12 @@ pub fn layout(p: &Prog) -> Option<Vec<u8>> {
     if code.len() > DATA_LO as usize {
         return None;
     }
-    Some(code)
+    Some((code, final_pc))
+}
+
+/// regular stop that is not the end of the program
+fn at_breakpoint(m: &Machine, final_pc: u8) -> bool {
+    m.state() == State::Stopped && m.registers().content()[3] != final_pc
 }
 
 fn bytecode(image: &[u8], stack48: bool) -> ByteCode {
@@ -263,18 +280,35 @@ pub struct RunStats {
     pub entered: u64,
     pub merged: u64,
     pub nontrivial: u64,
+    pub must_while_halted: u64,
 }
 
 type Fail = (String, String);
 
-fn run_triggered(bc: &ByteCode, triggers: &[usize], st: &mut RunStats) -> Result<(Machine, u64), Fail> {
+fn run_triggered(bc: &ByteCode, final_pc: u8, triggers: &[usize], st: &mut RunStats) -> Result<(Machine, u64), Fail> {
     let mut m = Machine::new(MachineConfig::default());
     m.load(bc.clone());
     let mut r = Tracked::new(m);
     let mut ob: Option<Ob> = None;
     let mut entries = 0u64;
     let mut t = 0usize;
-    while r.m.state() == State::Running && t < 400_000 {
+    let mut held = 0usize;
+    loop {
+        if r.m.state() != State::Running {
+            if !at_breakpoint(&r.m, final_pc) {
+                break;
+            }
+            // hold the halt for 2..=5 edges (key presses may fall into it), then continue
+            if held >= 2 + (r.m.registers().content()[3] as usize % 4) {
+                r.m.trigger_key_continue();
+                held = 0;
+                continue;
+            }
+            held += 1;
+        }
+        if t >= 400_000 {
+            break;
+        }
         let hits = triggers.iter().filter(|x| **x == t).count();
         for _ in 0..hits {
             if ob.is_none() {
@@ -286,6 +320,10 @@ fn run_triggered(bc: &ByteCode, triggers: &[usize], st: &mut RunStats) -> Result
                 let mut n = 0;
                 loop {
                     if u.m.state() != State::Running {
+                        if at_breakpoint(&u.m, final_pc) {
+                            u.m.trigger_key_continue();
+                            continue;
+                        }
                         halted = true;
                         break;
                     }
@@ -310,6 +348,9 @@ fn run_triggered(bc: &ByteCode, triggers: &[usize], st: &mut RunStats) -> Result
                 } else {
                     Exp::Free
                 };
+                if exp == Exp::Must && r.m.state() != State::Running {
+                    st.must_while_halted += 1;
+                }
                 match exp {
                     Exp::Must => st.must += 1,
                     Exp::MustNot => st.must_not += 1,
@@ -448,7 +489,7 @@ pub fn check_prog(p: &Prog, pairs_window: Option<(usize, usize)>, only: Option<&
         p.items.pop();
     }
     let p = &p;
-    let image = match layout(p) {
+    let (image, final_pc) = match layout_with_end(p) {
         Some(i) => i,
         None => {
             ps.fits = false;
@@ -457,7 +498,7 @@ pub fn check_prog(p: &Prog, pairs_window: Option<(usize, usize)>, only: Option<&
     };
     let bc = bytecode(&image, p.stack48);
     let mut scratch = RunStats::default();
-    let (base, e0) = match run_triggered(&bc, &[], &mut scratch) {
+    let (base, e0) = match run_triggered(&bc, final_pc, &[], &mut scratch) {
         Ok(x) => x,
         Err((s, d)) => {
             // a generated program that does not terminate or error-stops is discarded, not a finding
@@ -472,15 +513,31 @@ pub fn check_prog(p: &Prog, pairs_window: Option<(usize, usize)>, only: Option<&
     }
     let mut m = Machine::new(MachineConfig::default());
     m.load(bc.clone());
+    // T = length of the uninterrupted run in edges, breakpoint halts included (held as in run_triggered)
     let mut tmax = 0usize;
-    while m.state() == State::Running {
+    let mut held = 0usize;
+    loop {
+        if m.state() != State::Running {
+            if !at_breakpoint(&m, final_pc) {
+                break;
+            }
+            if held >= 2 + (m.registers().content()[3] as usize % 4) {
+                m.trigger_key_continue();
+                held = 0;
+                continue;
+            }
+            held += 1;
+        }
         m.trigger_key_clock();
         tmax += 1;
+        if tmax > 400_000 {
+            break;
+        }
     }
     ps.t = tmax;
     let mut one = |trigs: &[usize], ps: &mut ProgStats| -> Result<(), Fail> {
         ps.runs += 1;
-        let (m, entries) = run_triggered(&bc, trigs, &mut ps.st)?;
+        let (m, entries) = run_triggered(&bc, final_pc, trigs, &mut ps.st)?;
         let cnt = m.bus().memory()[CNT] as u64;
         if cnt != entries {
             return Err(("int:entry-count".into(), format!("trigger(s) {:?}: the routine ran {} time(s) but {} entr(y/ies) were observed at instruction boundaries", trigs, cnt, entries)));
@@ -554,6 +611,7 @@ pub fn run(ctx: &Ctx) -> Evidence {
                 *e.classes.entry("obligations:must-enter".into()).or_insert(0) += ps.st.must;
                 *e.classes.entry("obligations:must-not-enter".into()).or_insert(0) += ps.st.must_not;
                 *e.classes.entry("obligations:unconstrained".into()).or_insert(0) += ps.st.free;
+                *e.classes.entry("obligations:must-enter, key pressed during a breakpoint halt".into()).or_insert(0) += ps.st.must_while_halted;
                 *e.classes.entry("entries-observed".into()).or_insert(0) += ps.st.entered;
                 *e.classes.entry("merged-second-triggers".into()).or_insert(0) += ps.st.merged;
                 *e.classes.entry("uninterrupted-edges-total".into()).or_insert(0) += ps.t as u64;
